@@ -695,3 +695,108 @@ Definition wit_empty : role :=
         Role None KAgg (base0 [103] (lit s_true))
              [Role (Some (mkFor (RExpr (lit [91;93])) [105;116])) KTask
                    (mkBase [PLit [101]; PVar [105;116]] (lit s_true) [] [] [] [] true) []]].
+
+Definition ctx0 : ctx := mkCtx [] [] [].
+
+(* full statements that the faithful model refutes *)
+Definition error_fails_statement : Prop :=
+  forall c r, terr true c [] r -> load c r = Err.
+Definition iterator_enabled_statement : Prop :=
+  forall c fs k b kids n,
+    proc coded (Role (Some fs) k b kids) c [] = Ok n -> onode_kids n <> [] ->
+    node_enabled coded n = true.
+Definition no_visibly_empty_statement : Prop :=
+  forall c r t i crit ks,
+    load c r = Ok t -> In (ONode KAgg i crit ks) (desc t) -> flat_map visible ks <> [].
+
+Lemma wit_masked_terr : terr true ctx0 [] wit_masked.
+Proof.
+  unfold wit_masked. eapply TE_kid with (s := s_true).
+  - reflexivity.
+  - reflexivity.
+  - reflexivity.
+  - left. reflexivity.
+  - apply TE_enabled; reflexivity.
+Qed.
+
+Lemma wit_masked_loads : exists t, load ctx0 wit_masked = Ok t /\ length (flat_map visible (onode_kids t)) = 1%nat.
+Proof. vm_compute. eexists. split; reflexivity. Qed.
+
+Lemma error_fails_refuted : ~ error_fails_statement.
+Proof.
+  intros H. pose proof (H ctx0 wit_masked wit_masked_terr) as E.
+  destruct wit_masked_loads as [t [E2 _]]. rewrite E in E2. discriminate.
+Qed.
+
+Lemma iterator_enabled_refuted : ~ iterator_enabled_statement.
+Proof.
+  intros H.
+  assert (W : exists n, proc coded wit_iter ctx_xa [] = Ok n /\ onode_kids n <> [] /\
+                        node_enabled coded n = false).
+  { vm_compute. eexists. split; [reflexivity|]. split; [discriminate|reflexivity]. }
+  destruct W as [n [E1 [E2 E3]]]. unfold wit_iter in E1.
+  rewrite (H _ _ _ _ _ _ E1 E2) in E3. discriminate.
+Qed.
+
+(* the same witness seen from the root: the element for which `enabled` is true is missing *)
+Lemma iterator_enabled_witness :
+  exists t, load ctx_xa wit_iter_root = Ok t /\
+            length (flat_map visible (onode_kids t)) = 1%nat /\
+            exists t', proc ideal wit_iter_root ctx_xa [] = Ok t' /\
+                       length (flat_map visible (onode_kids t')) = 2%nat.
+Proof.
+  vm_compute. eexists. split; [reflexivity|]. split; [reflexivity|].
+  eexists. split; reflexivity.
+Qed.
+
+Lemma no_visibly_empty_refuted : ~ no_visibly_empty_statement.
+Proof.
+  intros H.
+  assert (W : exists t i crit ks, load ctx0 wit_empty = Ok t /\
+                                  In (ONode KAgg i crit ks) (desc t) /\ flat_map visible ks = []).
+  { vm_compute. do 4 eexists. split; [reflexivity|]. split; [right; left; reflexivity|reflexivity]. }
+  destruct W as [t [i [crit [ks [E1 [E2 E3]]]]]]. exact (H _ _ _ _ _ _ E1 E2 E3).
+Qed.
+
+(* the reference loader (flags off) meets the strict reading *)
+Lemma reference_no_visibly_empty r c loc t i crit ks :
+  proc ideal r c loc = Ok t -> In (ONode KAgg i crit ks) (desc t) -> flat_map visible ks <> [].
+Proof.
+  intros E Hn. pose proof (desc_agg_nonempty ideal r c loc t i crit ks E Hn) as Hne.
+  cbn in Hne. intros C. rewrite C in Hne. discriminate.
+Qed.
+
+Lemma coded_no_bare_aggregator r c loc t i crit ks :
+  proc coded r c loc = Ok t -> In (ONode KAgg i crit ks) (desc t) -> ks <> [].
+Proof.
+  intros E Hn. pose proof (desc_agg_nonempty coded r c loc t i crit ks E Hn) as Hne.
+  cbn in Hne. intros C. rewrite C in Hne. discriminate.
+Qed.
+
+(* one child per element when no copy is disabled *)
+Lemma iterator_count f fs k b kids c loc n :
+  proc f (Role (Some fs) k b kids) c loc = Ok n ->
+  exists vals ns,
+    range_vals (stack [] c) fs = Some vals /\
+    Forall2 (fun v m => proc f (Role None k b kids) c [(f_var fs, v)] = Ok m) vals ns /\
+    ((forall m, In m ns -> node_enabled f m = true) ->
+     onode_kids n = ns /\ length (onode_kids n) = length vals).
+Proof.
+  intros E. destruct (iterator_exact _ _ _ _ _ _ _ _ E) as [vals [ns [Hr [HF ->]]]].
+  exists vals, ns. split; [exact Hr|]. split; [exact HF|].
+  intros Hall. cbn [onode_kids]. rewrite (filter_all _ _ Hall).
+  split; [reflexivity|]. clear -HF. induction HF as [|v m vals ns _ HF IH]; [reflexivity|].
+  cbn. rewrite IH. reflexivity.
+Qed.
+
+(* a concrete template, its load, and two complete schedules (left-to-right, right-to-left) *)
+Definition ex_role : role :=
+  Role None KAgg (mkBase (lit [114]) (lit s_true) [([100], [PLit [68]; PVar kx])] [] [] [] false)
+       [Role (Some (mkFor (RExpr (lit [91;34;112;34;44;34;113;34;93])) [105;116])) KAgg
+             (mkBase [PLit [105]; PVar [105;116]] (lit s_true) [] [([119], [PVar [105;116]])] [] [] false)
+             [task_ok [99]; Role None KTask (base0 [122] [PNe kx va]) []];
+        Role None KCall (base0 [104] [PEq kx va]) []].
+Definition ex_sched_lr : schedule :=
+  [[]; [0]; [0;0]; [0;0;0]; [0;0;1]; [0;0]; [0;1]; [0;1;0]; [0;1;1]; [0;1]; [0]; [1]; []]%nat.
+Definition ex_sched_rl : schedule :=
+  [[]; [1]; [0]; [0;1]; [0;0]; [0;1;1]; [0;0;1]; [0;1;0]; [0;0;0]; [0;1]; [0;0]; [0]; []]%nat.
